@@ -50,6 +50,13 @@ def ops_for(rng, p, st, tier):
             ops.append(dict(op="ref", keys=P.key_repr(rng, steps), oracle=P.oracle_for(rng, p.t), _steps=steps, _leaf=leaf))
         if not leaf and rng.random() < 0.3:
             ops.append(dict(op="de", keys=P.key_repr(rng, steps), payload=list(b"1"), oracle=P.oracle_for(rng, p.t), _steps=steps, _leaf=leaf))
+    # ---- C05: read by key, write the produced bytes back by the same key (JSON and postcard)
+    for steps, leaf in nodes:
+        if leaf or rng.random() < 0.2:
+            for pc in (False, True):
+                if quick and rng.random() < 0.3:
+                    continue
+                ops.append(dict(op="rt", pc=pc, keys=P.key_repr(rng, steps), oracle=P.oracle_for(rng, p.t) if rng.random() < 0.3 else {}, _steps=steps, _leaf=leaf))
     # ---- write / read-back histories on the leaves
     nhist = (12 if quick else 40) + len(leaves)
     for i in range(nhist):
